@@ -3,6 +3,7 @@ package main
 import (
 	"fmt"
 	"go/ast"
+	"regexp"
 	"go/token"
 	"go/types"
 	"sort"
@@ -10,6 +11,27 @@ import (
 
 	"golang.org/x/tools/go/ssa"
 )
+
+var ncallsRe = regexp.MustCompile(`ncalls\("([^"]+)"\)`)
+
+func contractText(fc *FuncContract) string {
+	var sb strings.Builder
+	for _, c := range fc.Requires {
+		sb.WriteString(c.Src + "\n")
+	}
+	for _, c := range fc.Ensures {
+		sb.WriteString(c.Src + "\n")
+	}
+	for _, c := range fc.Asserts {
+		sb.WriteString(c.Src + "\n")
+	}
+	for _, l := range fc.Loops {
+		for _, c := range l.Invariants {
+			sb.WriteString(c.Src + "\n")
+		}
+	}
+	return sb.String()
+}
 
 type privAlloc struct {
 	ref  string
@@ -23,7 +45,11 @@ func newEnc(w *World, f *ssa.Function, info *passInfo, opts *EncOpts) *enc {
 		assumptions: map[string]bool{}, callOrd: map[string]int{}, opts: opts, usedSpecs: map[string]bool{}, usedSites: map[string]bool{}, taint: map[ssa.Value][2]string{}, invDone: map[string]bool{}}
 	e.rec = &passInfo{arrays: map[string]string{}, writes: map[ssa.Instruction][]string{}}
 	e.fc = w.CS.Funcs[e.key]
+	e.countKeys = map[string]bool{}
 	if e.fc != nil {
+		for _, m := range ncallsRe.FindAllStringSubmatch(contractText(e.fc), -1) {
+			e.countKeys[m[1]] = true
+		}
 		e.fc.Used = true
 		e.bv = e.fc.Ints == "bv64"
 		e.strTheory = e.fc.Strs == "theory"
@@ -463,6 +489,11 @@ func (e *enc) entryAssumptions() {
 			e.entry[g] = e.heap[g]
 			e.assume(fmt.Sprintf("(= %s ((as const (Array Ref Bool)) false))", e.hnameIn(g, e.entry)))
 		}
+	}
+	for k := range e.countKeys {
+		e.harr("G_n:"+k, "Int")
+		e.entry["G_n:"+k] = e.heap["G_n:"+k]
+		e.assume(fmt.Sprintf("(= %s 0)", e.hnameIn("G_n:"+k, e.entry)))
 	}
 	if e.fc == nil {
 		return
